@@ -320,6 +320,9 @@ func runC09(e *Engine, r *Report) {
 	ruleTanRemoveAllFirst(e, r)
 	rulePointReadClamped(e, r)
 	ruleSnapshotDeleteOlder(e, r)
+	ruleSetRangeRebases(e, r)
+	ruleTanInstallRemovesFirst(e, r)
+	ruleShardRouting(e, r)
 	ruleTanStateCache(e, r)
 	borrow(e, r, "C20", "MPT-import-batch")
 }
